@@ -390,13 +390,26 @@ def run(prog, rep, tier, repo):
         key = 'lm:covariance'
         rets = f.return_values()
         ok = False
+        why = '?'
         if len(rets) == 1 and tag(rets[0]) == 'agg' and rets[0][1] == 'tuple' and len(rets[0][3]) == 2:
             cov = rets[0][3][1]
             c = canon(f, cov, {}, ('arg', 1, None), {})
             ok = bool(re.match(r'Mul\(Div\(t_dot\(res,res\),Sub\(len\(.*\),len\(params\)\)\),inv\(jtj\)\)$', c)) or \
                 bool(re.match(r'Mul\(Div\(t_dot\(res,res\),Sub\(.*\)\),inv\(jtj\)\)$', c))
+            ok = ok or bool(re.match(r'Mul\(inv\(jtj\),Div\(t_dot\(res,res\),Sub\(.*\)\)\)$', c))       # the scalar on the right
             why = c
-        (rep.ok if ok else rep.viol)('lm', key, 'covariance = |r|^2/(n - p) * inv(J^T J)' if ok else 'returned covariance is %s' % (why if rets else '?'), site_of(f.body))
+            # refuted in the read form only: an expression over the LM state (res, jtj, jtr, params), the data arguments and arithmetic
+            voc = {'Mul', 'Div', 'Sub', 'Add', 'Neg', 't_dot', 'inv', 'len', 'res', 'jtj', 'jtr', 'params', 'dot', 't'} | {str(nm) for nm in f.names.values() if isinstance(nm, str)}
+            read = set(re.findall(r'[A-Za-z_][A-Za-z_0-9]*', c)) <= voc and 'jtj' in c
+        else:
+            read = False
+        if ok:
+            rep.ok('lm', key, 'covariance = |r|^2/(n - p) * inv(J^T J)')
+        elif read:
+            rep.viol('lm', key, 'returned covariance is %s' % (why if rets else '?'), site_of(f.body))
+        else:
+            rep.undecided('lm', key, 'returned covariance is not one expression over res, jtj and the counts (%s): not read' % str(why)[:120],
+                          site_of(f.body), proof=False)
         # jtj / res are refreshed together with the accepted parameters
         key = 'lm:state-coherent'
         if cps:
